@@ -7,6 +7,7 @@ import (
 	"fmt"
 	"os"
 	"strconv"
+	"strings"
 	"time"
 
 	"github.com/cosmos/cosmos-sdk/codec"
@@ -202,10 +203,18 @@ func (a *App) mapAddrValue(v interface{}) interface{} {
 		}
 		return x
 	case string:
-		if len(x) > len(Bech32Prefix)+1 && x[:len(Bech32Prefix)+1] == Bech32Prefix+"1" {
+		// a bech32 address has two valid spellings (all lower case, all upper case); the upper-case one is marked
+		if len(x) > len(Bech32Prefix)+1 && strings.EqualFold(x[:len(Bech32Prefix)+1], Bech32Prefix+"1") {
 			if bz, err := sdk.AccAddressFromBech32(x); err == nil {
+				upper := x != strings.ToLower(x)
 				if i, ok := a.book.indexOfBytes(bz); ok {
+					if upper {
+						return map[string]interface{}{"addr": json.Number(strconv.Itoa(i)), "upper": true}
+					}
 					return map[string]interface{}{"addr": json.Number(strconv.Itoa(i))}
+				}
+				if upper {
+					return map[string]interface{}{"hex": hex.EncodeToString(bz), "upper": true}
 				}
 				return map[string]interface{}{"hex": hex.EncodeToString(bz)}
 			}
